@@ -23,7 +23,7 @@ def level (L : List (List Nat)) (j : Nat) : List Nat := L.filterMap (·[j]?)
 
 /-- Continuation bits of level `j`. -/
 def levelBits (L : List (List Nat)) (j : Nat) : List Bool :=
-  (L.filter fun s => j < s.length).map fun s => j + 1 < s.length
+  L.filterMap fun s => if j < s.length then some (decide (j + 1 < s.length)) else none
 
 def maxLen (L : List (List Nat)) : Nat := L.foldl (fun m s => max m s.length) 0
 
